@@ -243,6 +243,55 @@ pub fn run(ctx: &Ctx) -> Report {
                     }
                 }
             }
+            // (3b) plausible *alternative* HMAC values in each integrity attribute (a validator that
+            // accepts a second computation "for interoperability" shows here): HMAC over the buffer
+            // with the length field as transmitted, with the length excluding the attribute, over
+            // the whole message, without the header, or with the other hash truncated
+            {
+                let key = c.key();
+                for a in m.attrs.iter().filter(|a| wire::is_integrity(a.typ)) {
+                    let off = a.offset;
+                    let mut inputs: Vec<Vec<u8>> = Vec::new();
+                    inputs.push(buf[..off].to_vec()); // length field as on the wire
+                    let mut x = buf[..off].to_vec();
+                    wire::set_len(&mut x, off - 20); // length excluding the integrity attribute
+                    inputs.push(x);
+                    let mut x = buf[..off].to_vec();
+                    wire::set_len(&mut x, off + 4 + 32 - 20);
+                    inputs.push(x);
+                    inputs.push(buf.to_vec()); // everything
+                    inputs.push(buf[20..off].to_vec()); // body only
+                    let mut x = wire::hmac_input(buf, off, a.len);
+                    x.truncate(off.min(x.len()));
+                    x.extend_from_slice(&[0u8; 4]);
+                    inputs.push(x); // padded with zeros (RFC 3489bis-style 64-byte padding idea, shortened)
+                    for inp in inputs {
+                        let alt: Vec<u8> = if a.typ == wire::MI {
+                            crate::refimpl::crypto::hmac_sha1(&key, &inp).to_vec()
+                        } else {
+                            crate::refimpl::crypto::hmac_sha256(&key, &inp)[..a.len.min(32)].to_vec()
+                        };
+                        if alt.len() == a.len && alt[..] != a.value[..] {
+                            let mut b = buf.clone();
+                            b[off + 4..off + 4 + a.len].copy_from_slice(&alt);
+                            judge_guarded(judge, &Case::new("validate", b).text(&[&ct, "bytesub"]), &mut acc);
+                        }
+                    }
+                    // the other hash function under the same key
+                    let cross: Vec<u8> = if a.typ == wire::MI {
+                        crate::refimpl::crypto::hmac_sha256(&key, &wire::hmac_input(buf, off, a.len))[..20].to_vec()
+                    } else {
+                        let mut h = crate::refimpl::crypto::hmac_sha1(&key, &wire::hmac_input(buf, off, a.len)).to_vec();
+                        h.resize(a.len, 0);
+                        h
+                    };
+                    if cross.len() == a.len && cross[..] != a.value[..] {
+                        let mut b = buf.clone();
+                        b[off + 4..off + 4 + a.len].copy_from_slice(&cross);
+                        judge_guarded(judge, &Case::new("validate", b).text(&[&ct, "bytesub"]), &mut acc);
+                    }
+                }
+            }
             // (4) alternative keys
             for a in alternatives(c) {
                 judge_guarded(judge, &Case::new("validate", buf.clone()).text(&[&creds_text(&a), "altkey"]), &mut acc);
@@ -261,7 +310,7 @@ pub fn run(ctx: &Ctx) -> Report {
     Report {
         acc,
         exhaustive: true,
-        rule: "8 bodies x fingerprint yes/no x 8 credentials x {SHA-1, SHA-256, both} sealed by the real builder; reference-serialised messages with SHA-256 truncated to 12..36 bytes, MI256-before-MI order and mixed correctness; on each: every single-bit flip and every byte value at every position from offset 0 through the end of the last integrity attribute, up to 25 near-miss keys (case, trailing space / NUL, prefixes of 16/20/32/63/64/65/128 bytes, other credential kind, swapped parts); key-length sweep: short-term passwords of every length 0..=140 and long-term credentials with parts of 0..200 bytes x {SHA-1, SHA-256, both} x {builder, reference serialiser}; unsealed bodies x 8 credentials; distinct_nontrivial = sealed buffers".into(),
+        rule: "8 bodies x fingerprint yes/no x 8 credentials x {SHA-1, SHA-256, both} sealed by the real builder; reference-serialised messages with SHA-256 truncated to 12..36 bytes, MI256-before-MI order and mixed correctness; on each: every single-bit flip and every byte value at every position from offset 0 through the end of the last integrity attribute, plausible alternative HMAC values in each integrity attribute (other length fields, other ranges, the other hash), up to 25 near-miss keys (case, trailing space / NUL, prefixes of 16/20/32/63/64/65/128 bytes, other credential kind, swapped parts); key-length sweep: short-term passwords of every length 0..=140 and long-term credentials with parts of 0..200 bytes x {SHA-1, SHA-256, both} x {builder, reference serialiser}; unsealed bodies x 8 credentials; distinct_nontrivial = sealed buffers".into(),
         bounds: json!({"sealed_buffers": n_sealed, "unsealed": unsealed.len(), "faults": if thorough { "single bit, all byte values, length-bit x any-bit pairs" } else { "single bit, all byte values" }}),
         assumptions: vec!["HMAC-SHA1/SHA-256 collision resistance (no forgery that needs to break the MAC is explored)".into(), "keys outside the alternative-key alphabet are not explored".into()],
         ..Default::default()
